@@ -477,6 +477,24 @@ def cascade(b):
                 [("self.collapse_modes", None)] if fl else [], "ensures the modes are collapsed iff collapse_tidal_modes is true (a frequency update passes False per layer and collapses once at the end)")
     except ExtractError as e:
         b.subset_exits.append(str(e))
+    # every model's calculate(): the live inputs (viscosity, compliance, temperature ... of the layer NOW) are re-read before the model function runs
+    try:
+        mh = ClassModel("ModelHolder", "TidalPy/utilities/classes/model/model.py")
+        c, node = mh.lookup("methods", "calculate")
+        if node is not None:
+            mfn = MethodFn(c, node)
+            b.functions[mfn.key] = mfn.info()
+            seen = []
+            new_live = (R("live_now_0"), R("live_now_1"))
+            o = Obj(mh, _live_inputs=(R("live_old_0"), R("live_old_1")), get_live_args=(lambda ex, node_: new_live), name="model")
+            o.setattr("_calc_to_use", lambda ex, node_, *a_, **k_: (seen.append(o._attrs["_live_inputs"]), R("model_result"))[1])
+            ex = Exec(mfn, globals_env=dict(AttributeNotSetError="AttributeNotSetError"), contracts={}, opts=dict(definedness=False))
+            paths = ex.run({"self": o})
+            rets = [p_ for p_ in paths if p_.outcome == "return"]
+            ok = len(rets) == 1 and len(seen) == 1 and tuple(seen[0]) == new_live and rets[0].value == R("model_result")
+            ground(b, f"{mfn.key}::ensures:live_inputs_refreshed", mfn.key, "ensures the live inputs are re-read (get_live_args) BEFORE the model's calculation runs, and its result is returned", ok, detail=f"live inputs seen by the calculation: {seen}")
+    except (ExtractError, SymExError) as e:
+        b.subset_exits.append(f"ModelHolder.calculate: {e}")
     # entry links: the layer's temperature / pressure / strength setters start the cascade
     Tn, Pn, eta_n, mu_n = R("T_given"), R("P_given"), R("eta_given"), R("mu_given")
 
